@@ -40,7 +40,12 @@ class Prov:
         out = set()
         for lab in labels:
             cur = lab
+            after_downcast = False
             for e in proj:
+                payload = after_downcast and e["k"] == "field"      # `(x as Some).0` selects the payload, not a pair component
+                after_downcast = e["k"] == "downcast"
+                if payload and isinstance(cur, tuple) and cur[0] == "P":
+                    continue
                 if isinstance(cur, tuple) and cur[0] == "P" and e["k"] == "field" and e.get("i") in (0, 1):
                     cur = cur[1 + e["i"]]
                     continue
